@@ -166,6 +166,10 @@ impl<'a, B: ByteOrder> Buffer<'a, B> {
         // cursor, and the delimiter.
         let result = D::decode_string(data_slice, &mut self.cursor, delimiter)?;
 
+        // A string without its delimiter ends with the packet: the decoders skip a
+        // delimiter that is not there, keep the cursor within the data.
+        self.cursor = self.cursor.min(self.data_length());
+
         // If decoding was successful, return the decoded string. The cursor
         // position has been updated within the decode_string call to reflect
         // the new position after reading.
